@@ -55,6 +55,7 @@ package consul
 //@ // ---- C14: every generated route command has passed fabio's own parser ---------------------------------------
 //@ func validateCommand
 //@   props C14
+//@   requires parserReady()
 //@   assigns bufOf
 //@   ensures nopanic
 //@   ensures (result == nil) == accepts(cmd)
@@ -84,7 +85,7 @@ package consul
 //@
 //@ func (routecmd).build
 //@   props C14
-//@   requires r.svc != nil
+//@   requires r.svc != nil && parserReady()
 //@   assigns bufOf, ioWrites, lastWrite
 //@   ensures nopanic
 //@   // validate-before-emit: whatever the registration contains, only commands the parser accepts are emitted
@@ -100,7 +101,7 @@ package consul
 //@
 //@ func (*ServiceMonitor).serviceConfig
 //@   props C14
-//@   requires w != nil && w.client != nil && w.config != nil
+//@   requires w != nil && w.client != nil && w.config != nil && parserReady()
 //@   assigns bufOf, ioWrites, lastWrite
 //@   ensures nopanic
 //@   // the commands of one service are the concatenation of what build emitted for its passing instances
